@@ -1010,6 +1010,27 @@ func extraOnly(c *Comp) bool {
 	return diff(&Comp{}, &d) == ""
 }
 
+// viaJSONCarrier decodes a JSON literal the way it travels in a packet: a length-prefixed string read by
+// chat.JsonMessage.ReadFrom (the disconnect reason and the status description arrive like this, spelled by the peer).
+func viaJSONCarrier(lit []byte) (chat.Message, error) {
+	var wire bytes.Buffer
+	n := len(lit)
+	for {
+		b := byte(n & 0x7f)
+		n >>= 7
+		if n != 0 {
+			wire.WriteByte(b | 0x80)
+			continue
+		}
+		wire.WriteByte(b)
+		break
+	}
+	wire.Write(lit)
+	var jm chat.JsonMessage
+	_, err := jm.ReadFrom(bytes.NewReader(wire.Bytes()))
+	return chat.Message(jm), err
+}
+
 // judgeShapes: the bare-string and list input shapes, in both forms.
 func judgeShapes(c *Comp, cs Case) {
 	var err error
@@ -1023,6 +1044,15 @@ func judgeShapes(c *Comp, cs Case) {
 				fail("shape/json-string/rejected/"+errKind(err), cs, "json.Unmarshal(%s) into a Message failed: %v", lit, err)
 			} else {
 				compare("shape/json-string/decoded-differs", cs, c, back, fmt.Sprintf("decoding %s", lit))
+			}
+		}
+		var viaC chat.Message
+		if !guard("shape/json-string-carrier", cs, func() { viaC, err = viaJSONCarrier(lit) }) {
+			ev(1)
+			if err != nil {
+				fail("shape/json-string-carrier/rejected/"+errKind(err), cs, "JsonMessage.ReadFrom of the length-prefixed literal %s failed: %v", lit, err)
+			} else {
+				compare("shape/json-string-carrier/decoded-differs", cs, c, viaC, fmt.Sprintf("JsonMessage.ReadFrom of %s", lit))
 			}
 		}
 		// NBT string
@@ -1064,6 +1094,15 @@ func judgeShapes(c *Comp, cs Case) {
 				check("shape/json-list", back, fmt.Sprintf("decoding %s", lit))
 			}
 		}
+		var viaC chat.Message
+		if !guard("shape/json-list-carrier", cs, func() { viaC, err = viaJSONCarrier(lit) }) {
+			ev(1)
+			if err != nil {
+				fail("shape/json-list-carrier/rejected/"+errKind(err), cs, "JsonMessage.ReadFrom of the length-prefixed literal %s failed: %v", lit, err)
+			} else {
+				check("shape/json-list-carrier", viaC, fmt.Sprintf("JsonMessage.ReadFrom of %s", lit))
+			}
+		}
 		enc := refnbt.Append(nil, "", treeToNBT(l), true)
 		var nb chat.Message
 		if !guard("shape/nbt-list", cs, func() { _, err = nb.ReadFrom(bytes.NewReader(enc)) }) {
@@ -1092,6 +1131,15 @@ func judgeShapes(c *Comp, cs Case) {
 					fail("shape/json-list-of-strings/rejected/"+errKind(err), cs, "json.Unmarshal(%s) failed: %v", lit, err)
 				} else {
 					check("shape/json-list-of-strings", back, fmt.Sprintf("decoding %s", lit))
+				}
+			}
+			var viaC chat.Message
+			if !guard("shape/json-list-of-strings-carrier", cs, func() { viaC, err = viaJSONCarrier(lit) }) {
+				ev(1)
+				if err != nil {
+					fail("shape/json-list-of-strings-carrier/rejected/"+errKind(err), cs, "JsonMessage.ReadFrom of the length-prefixed literal %s failed: %v", lit, err)
+				} else {
+					check("shape/json-list-of-strings-carrier", viaC, fmt.Sprintf("JsonMessage.ReadFrom of %s", lit))
 				}
 			}
 			enc := refnbt.Append(nil, "", treeToNBT(sl), true)
